@@ -537,7 +537,10 @@ func run(c *core.Ctx) {
 		rec = func(seq []int) {
 			if len(seq) > 0 {
 				in := RevInput{Sub: sub, Seq: append([]int{}, seq...)}
-				caseNo, _ := c.Begin()
+				caseNo, run := c.Begin()
+				if c.Skip(caseNo, run, Input{Rev: &in}) {
+					return
+				}
 				c.Exec()
 				c.Validate()
 				c.Edge(int64(len(seq)) * int64(1+len(importDates)))
@@ -646,7 +649,10 @@ func run(c *core.Ctx) {
 					dirs := [][]string{subsets(cwdNames, m0), subsets(names, m1), subsets(names, m2)}
 					for _, req := range []string{"a", "ab", "a@2020-01-01"} {
 						in := FileInput{Dirs: dirs, Request: req}
-						caseNo, _ := c.Begin()
+						caseNo, run := c.Begin()
+						if c.Skip(caseNo, run, Input{File: &in}) {
+							continue
+						}
 						c.Exec()
 						c.Validate()
 						c.Edge(1)
@@ -673,7 +679,10 @@ func run(c *core.Ctx) {
 			for m := 0; m < 1<<len(fileNames); m++ {
 				dirs := [][]string{nil, subsets(fileNames, m), nil}
 				in := FileInput{Dirs: dirs, Request: "a"}
-				caseNo, _ := c.Begin()
+				caseNo, run := c.Begin()
+				if c.Skip(caseNo, run, Input{File: &in}) {
+					continue
+				}
 				c.Exec()
 				c.Validate()
 				c.Edge(1)
@@ -708,7 +717,10 @@ func run(c *core.Ctx) {
 					return
 				}
 				in := SplitInput{Place: place, Cross: [2]bool{cr&1 != 0, cr&2 != 0}}
-				caseNo, _ := c.Begin()
+				caseNo, run := c.Begin()
+				if c.Skip(caseNo, run, Input{Split: &in}) {
+					continue
+				}
 				c.Exec()
 				c.Edge(3)
 				c.StateN(1)
